@@ -15,7 +15,7 @@ TH = VERIF / 'coq' / 'theories'
 NAMES_ARGS = 'Names.parse Names.fmt'
 # property -> (imports, header comment, [(theorem name, lemma expression, statement definitions to unfold)])
 TABLE = {
- 'C01': ('Base Digraph Names Graph GraphObs GraphInv GraphInvProofs',
+ 'C01': ('Base Digraph Names Graph GraphObs GraphInv GraphInvProofs Spec SpecProofs',
          'C01 — mutations behave as an abstract mixed graph: one typed edge per node pair.\n'
          '    The concrete model (Graph.v, validated against the real classes on every run) keeps the two mirrored edge\n'
          '    indexes, the per-node directed lists and the time-series lookup indexes; Inv says they all describe ONE mixed\n'
@@ -25,6 +25,13 @@ TABLE = {
           ('every_reachable_state_satisfies_invariant', 'inv_run Names.parse Names.fmt', ['inv_run_statement']),
           ('one_edge_per_pair', 'one_edge_per_pair Names.parse', ['one_edge_per_pair_statement']),
           ('views_report_one_state', 'views_agree Names.parse', ['views_agree_statement']),
+          ('abstraction_is_well_formed_reference_state', '@abs_wf Names.parse', []),
+          ('every_operation_refines_the_reference_model', '@refines_step Names.parse Names.fmt', []),
+          ('every_history_refines_the_reference_model_effects_and_errors', '@refines_run Names.parse Names.fmt', []),
+          ('every_read_view_is_a_function_of_the_reference_state', '@views_from_abs Names.parse', []),
+          ('reference_model_keeps_one_edge_per_pair', '@spec_one_edge_per_pair Names.parse', []),
+          ('reference_model_cycle_clause', '@s_closes_cycle_acyclic Names.parse', []),
+          ('every_reference_state_is_reachable_as_a_concrete_state', '@abs_surjective Names.parse', []),
           ]),
  'C02': ('Base Digraph DigraphProofs Names Graph GraphObs GraphInv GraphAcyclicProofs',
          'C02 — validated graphs never hold a directed cycle; is_dag() reports exactly that.',
@@ -43,6 +50,58 @@ TABLE = {
           ('equivalent_states_are_observationally_equal', 'observe_equiv Names.parse', ['observe_equiv_statement']),
           ('all_but_retyping_mutators_leave_the_state_literally_unchanged', 'failed_step_exact Names.parse Names.fmt', []),
           ('rejected_add_edge_leaves_no_implicit_nodes', '@at_add_edge_fail Names.parse', []),
+          ]),
+ 'C05': ('Base Digraph Names Graph GraphObs GraphInv Serial SerialProofs Closed',
+         'C05 — dictionary / JSON serialisation round-trips to a deeply equal graph.\n'
+         '    TagsStable g: re-deriving the two reserved tags of a time-series node leaves its metadata unchanged (true of key-sorted\n'
+         '    metadata and of metadata built by the node constructor; Inv has no clause on the shape of metadata lists).',
+         [('round_trip_deeply_equal_validated', 'roundtrip_closed', []),
+          ('round_trip_deeply_equal_unvalidated', 'roundtrip_novalidate_closed', []),
+          ('copy_is_deeply_equal', '@copy_deep_eq Names.parse Names.fmt', []),
+          ('result_of_from_dict_satisfies_the_invariant_same_class', 'from_dict_inv_closed', []),
+          ('serialising_again_gives_the_same_dictionary', '@to_dict_idempotent Names.parse Names.fmt', []),
+          ('to_dict_independent_of_construction_order', '@to_dict_order_independent Names.parse', []),
+          ('to_dict_total_on_reachable_states', '@to_dict_inv Names.parse', []),
+          ('skeleton_round_trip', '@skeleton_roundtrip Names.parse Names.fmt', []),
+          ('plain_to_time_series_preserves', '@cg_to_ts_preserves Names.parse Names.fmt', []),
+          ('plain_to_time_series_flips_exactly_nondirected_against_time', '@ts_orient_spec Names.parse', []),
+          ('plain_to_time_series_rejects_directed_against_time', '@cg_to_ts_rejects_directed_against_time Names.parse Names.fmt', []),
+          ('time_series_to_plain_deeply_equal', 'ts_to_cg_deep_eq_closed', []),
+          ('time_series_to_plain_and_back', 'ts_to_cg_to_ts_closed', []),
+          ]),
+ 'C08': ('Base Digraph Names Graph GraphObs GraphInv Matrix MatrixProofs Skeleton SkeletonProofs Closed',
+         'C08 — matrix, networkx, GML and skeleton interchange reconstruct an equal graph.\n'
+         '    GML text and the lagged matrices (to_numpy_by_lag / from_adjacency_matrices) are not modelled here: the former is exercised,\n'
+         '    the latter is covered by adjacency_matrices in the time-series model (C14) and by the round-trip predicate of the check.',
+         [('matrix_entry_is_one_iff_edge', '@matrix_entry Names.parse', []),
+          ('matrix_is_square_and_binary', '@matrix_shape Names.parse', []),
+          ('directed_undirected_graphs_are_representable', '@to_numpy_total Names.parse', []),
+          ('unrepresentable_edge_types_refused_by_to_numpy', 'unrepresentable_refused', []),
+          ('unrepresentable_graphs_refused_by_networkx_and_gml', 'unrepresentable_refused_nx', []),
+          ('malformed_matrices_refused', '@malformed_refused Names.parse Names.fmt', []),
+          ('matrix_round_trip_validated', 'matrix_roundtrip_closed', []),
+          ('matrix_round_trip_own_class', 'matrix_roundtrip_own_closed', []),
+          ('matrix_round_trip_unvalidated', '@matrix_roundtrip_novalidate Names.parse Names.fmt', []),
+          ('cyclic_graph_matrix_refused_with_validation', 'matrix_roundtrip_cyclic_refused_closed', []),
+          ('networkx_round_trip', 'nx_roundtrip_closed', []),
+          ('constructed_graph_satisfies_invariant', 'from_matrix_inv_closed', []),
+          ]),
+ 'C09': ('Base Digraph Names Graph GraphObs GraphInv Matrix Skeleton SkeletonProofs Closed',
+         'C09 — the skeleton is a live, purely undirected image of the graph.\n'
+         '    Every skeleton view is a function of the CURRENT state of the graph model, so liveness is immediate in the model; the check\n'
+         '    takes the Skeleton object BEFORE the history. Not proved: sk_rebuild_dict_statement (rebuild from its own dictionary; compared on every run).',
+         [('nodes_are_the_graph_nodes', '@sk_nodes_spec Names.parse', []),
+          ('one_undirected_edge_per_stored_edge_nothing_else', '@sk_edges_spec Names.parse', []),
+          ('adjacency_symmetric', '@sk_adj_sym Names.parse', []),
+          ('adjacency_one_iff_adjacent', '@sk_adj_iff_adjacent Names.parse', []),
+          ('existence_ignores_orientation', 'sk_exists_sym', []),
+          ('existence_iff_adjacent', '@sk_exists_spec Names.parse', []),
+          ('get_edge_either_orientation', '@sk_get_edge_spec Names.parse', []),
+          ('neighbours_are_exactly_the_adjacent_names', '@sk_neighbors_spec Names.parse', []),
+          ('rebuild_from_matrix', 'sk_rebuild_matrix_closed', []),
+          ('rebuild_from_networkx', 'sk_rebuild_nx_closed', []),
+          ('rebuild_from_matrix_own_class', 'sk_rebuild_matrix_own_closed', []),
+          ('rebuild_from_networkx_own_class', 'sk_rebuild_nx_own_closed', []),
           ]),
  'C06': ('Base Alias AliasProofs',
          'C06 — exports, copies and derived graphs never alias the graph or each other.\n'
@@ -91,7 +150,7 @@ TABLE = {
           ('dont_care_direction_list_in_source_is_the_modelled_one', 'dont_care_direction_set', []),
           ('edge_type_spellings_in_source_are_the_modelled_ones', 'edge_type_values_exact', []),
           ]),
- 'C10': ('Base Digraph DigraphProofs Queries QueriesProofs',
+ 'C10': ('Base Digraph DigraphProofs Queries QueriesProofs Names Graph GraphObs GraphInv Bridge BridgeProofs',
          'C10 — structural queries agree with their graph-theoretic definitions.',
          [('descendants_are_directed_reachability', '@desc_spec', []),
           ('ancestors_are_directed_reachability', '@anc_spec', []),
@@ -110,8 +169,12 @@ TABLE = {
           ('renaming_invariance_descendants', '@desc_rename', []),
           ('renaming_invariance_ancestors', '@anc_rename', []),
           ('acyclicity_is_renaming_invariant', '@map_graph_acyclic', []),
+          ('applies_to_every_reachable_state_descendants', '@reachable_descendants_correct', []),
+          ('applies_to_every_validated_reachable_state_nodes_between', '@reachable_nodes_between_correct', []),
+          ('graph_parents_view_is_digraph_parents', '@parents_bridge', []),
+          ('reachable_validated_states_are_well_formed_dags', '@reachable_validated_dag', []),
           ]),
- 'C11': ('Base Digraph DSep DSepProofs',
+ 'C11': ('Base Digraph DSep DSepProofs Names Graph GraphObs GraphInv Bridge BridgeProofs',
          'C11 — d-separation answers match the graphical definition.\n'
          '    networkx is modelled by the textbook definition [dsep] (every path between X and Y is blocked by Z); [dsepb]\n'
          '    is its executable form, compared with is_d_separated exhaustively by the correspondence check.',
@@ -124,6 +187,7 @@ TABLE = {
           ('adjacent_nodes_are_never_separated', '@adjacent_never_separated', []),
           ('get_d_separation_set_minimal_on_all_dags_le4', 'min_dsep_set_partial', []),
           ('is_minimally_d_separated_algorithm_le4', 'nx_min_sepb_partial', []),
+          ('applies_to_every_reachable_state', '@reachable_dsepb_correct', []),
           ]),
  'C12': ('Base Dec Names NamesProofs Graph GraphObs GraphInv GraphInvProofs',
          'C12 — time-series node identity and lag / variable lookups stay coherent.\n'
@@ -145,15 +209,16 @@ TABLE = {
           ('every_reachable_state_satisfies_invariant_incl_NodeOK_IdxOK', 'inv_run Names.parse Names.fmt', ['inv_run_statement']),
           ('lookups_equal_scan', 'lookups_eq_scan Names.parse', ['lookups_eq_scan_statement']),
           ]),
- 'C13': ('Base Digraph DigraphProofs Names Graph GraphObs GraphInv GraphInvProofs Queries QueriesProofs',
+ 'C13': ('Base Digraph DigraphProofs Names Graph GraphObs GraphInv GraphInvProofs Queries QueriesProofs Bridge BridgeProofs',
          'C13 — time-series graphs never point a directed edge backwards in time.\n'
          '    TimeOK (field ts_time of TSInv) is part of Inv TS, hence holds in every reachable state.',
          [('every_reachable_ts_state_satisfies_invariant_incl_TimeOK', 'inv_run Names.parse Names.fmt', ['inv_run_statement']),
           ('time_sorted_topological_order_exists', '@time_topo_exists', []),
           ('return_all_is_exactly_the_time_sorted_topological_orders', '@all_time_topo_spec', []),
           ('time_sorted_orders_nonempty', '@all_time_topo_nonempty', []),
+          ('validated_reachable_ts_states_have_a_time_sorted_topological_order', '@reachable_time_topo_exists', []),
           ]),
- 'C14': ('Base Digraph TSGraph TSGraphProofs MinimalProofs',
+ 'C14': ('Base Digraph TSGraph TSGraphProofs MinimalProofs MinimalProofs2 Names Graph GraphObs GraphInv Bridge BridgeProofs',
          'C14 — the minimal graph is exactly the set of lag-invariant edge templates.\n'
          '    NOT proved in general (statement kept in MinimalProofs.v): adj_matrices_statement (adjacency_matrices = the template set\n'
          '    written as one matrix per source lag); it is compared with the implementation on every run instead.',
@@ -167,6 +232,10 @@ TABLE = {
           ('is_minimal_iff_equals_minimal_graph', 'is_minimal_iff', []),
           ('oracle_decides_the_characterisation', 'c14_check_spec', []),
           ('model_output_passes_the_oracle', 'minimal_check', []),
+          ('adjacency_matrices_is_the_template_set_per_source_lag', 'adj_matrices_spec', []),
+          ('adjacency_matrices_refuses_other_edge_types', 'adj_matrices_type_error', []),
+          ('applies_to_every_state_reached_by_calls_with_canonical_names', '@canonical_history_bridge', []),
+          ('time_series_abstraction_of_reachable_state_is_well_formed', '@to_tsg_wf', []),
           ]),
  'C15': ('Base Digraph TSGraph TSGraphProofs MinimalProofs ExtendProofs',
          'C15 — the extended graph is the exact unrolling of the minimal graph over the window.',
@@ -181,11 +250,11 @@ TABLE = {
           ('oracle_decides_the_characterisation', 'c15_check_m_spec', []),
           ('model_output_passes_the_oracle', 'extend_check', []),
           ]),
- 'C16': ('Base Digraph TSGraph TSGraphProofs MinimalProofs ExtendProofs StationaryProofs',
+ 'C16': ('Base Digraph TSGraph TSGraphProofs MinimalProofs ExtendProofs StationaryProofs StationaryProofs2',
          'C16 — the stationary graph is the least stationary super-graph; the test agrees.\n'
-         '    NOT proved in general (statements kept in StationaryProofs.v): stat_idem_statement ("is itself stationary": proved is that its\n'
-         '    minimal graph is the minimal graph of the input, stat_minimal) and c16_check_statement (oracle <-> Prop; proved direction:\n'
-         '    the model output satisfies it). Both are evaluated on every implementation output by the correspondence check.',
+         '    A time-series DAG whose CONTEMPORANEOUS templates are cyclic across lags (X(t-1)->Y(t-1), Y->Z, Z(t-2)->X(t-2)) has a cyclic stationary\n'
+         '    graph, which is_stationary_graph rejects as a non-DAG (stat_dag_input_refuted; observation O8 in DESIGN.md): the property presupposes\n'
+         '    that a stationary DAG over the templates exists, i.e. that the minimal graph is a DAG (stat_stationary).',
          [('stationary_is_window_extension_of_minimal', 'stationary_def', []),
           ('contains_every_node_and_edge_of_the_input', 'stat_contains_input', []),
           ('spans_the_window_with_every_variable_at_every_lag', 'stat_window', []),
@@ -195,8 +264,13 @@ TABLE = {
           ('is_stationary_iff_equals_stationary_graph', 'is_stationary_iff', []),
           ('is_stationary_graph_iff', 'is_stationary_graph_iff', []),
           ('model_output_meets_the_characterisation', 'stat_c16_spec', []),
+          ('result_is_a_fixed_point', 'stat_idem', []),
+          ('result_is_stationary_iff_its_minimal_graph_is_a_dag', 'stat_is_stationary', []),
+          ('result_is_stationary_when_minimal_graph_is_a_dag', 'stat_stationary', []),
+          ('oracle_decides_the_characterisation', 'c16_check_spec', []),
+          ('dag_input_with_cyclic_templates_refuted', 'stat_dag_input_refuted', []),
           ]),
- 'C17': ('Base Digraph TSGraph TSGraphProofs SummaryProofs',
+ 'C17': ('Base Digraph TSGraph TSGraphProofs SummaryProofs Names Graph GraphObs GraphInv Bridge BridgeProofs',
          'C17 — the summary graph has one node per variable and an edge per causal link.',
          [('succeeds_on_every_dag_and_meets_characterisation', 'summary_ok', []),
           ('only_non_dags_are_refused', 'summary_not_dag', []),
@@ -206,8 +280,9 @@ TABLE = {
           ('bidirected_iff_edges_go_both_ways', 'summary_bi', []),
           ('no_self_edges_one_edge_per_pair', 'summary_no_self', []),
           ('oracle_decides_the_characterisation', 'c17_check_spec', []),
+          ('applies_to_every_state_reached_by_calls_with_canonical_names', '@canonical_history_summary', []),
           ]),
- 'C18': ('Base Digraph DigraphProofs DSep DSepProofs Identify IdentifyProofs IdentifyDSep',
+ 'C18': ('Base Digraph DigraphProofs DSep DSepProofs Identify IdentifyProofs IdentifyDSep Names Graph GraphObs GraphInv Bridge BridgeProofs',
          'C18 — identified confounders are common causes that close every back-door path.\n'
          '    The sufficiency clause is FALSE of the faithful model and of the code (recorded finding F12):\n'
          '    [sufficiency_refuted] is the witness; the finite statement for all DAGs on <= 4 nodes holds.',
@@ -217,6 +292,7 @@ TABLE = {
           ('common_parents_are_found', '@conf_common_parent', []),
           ('sufficiency_refuted', 'conf_sufficient_refuted', ['conf_sufficient_statement']),
           ('sufficiency_holds_on_all_dags_le4', 'conf_sufficient_le4', []),
+          ('applies_to_every_validated_reachable_state', '@reachable_confounders_common_ancestors', []),
           ]),
  'C19': ('Base Digraph DigraphProofs DSep DSepProofs Identify IdentifyProofs IdentifyDSep',
          'C19 — identified instruments and mediators satisfy their graphical criteria.',
@@ -231,7 +307,7 @@ TABLE = {
           ('mediators_total_on_dags', '@mediators_some', []),
           ('instrument_d_separation_on_all_dags_le4', 'inst_dsep_le4', []),
           ]),
- 'C20': ('Base Digraph DSep DSepProofs Markov MarkovProofs',
+ 'C20': ('Base Digraph DSep DSepProofs Markov MarkovProofs Names Graph GraphObs GraphInv Bridge BridgeProofs',
          'C20 — Markov boundaries shield their node; colliders are the nodes with two arrowheads.',
          [('markov_boundary_is_parents_children_coparents', '@mb_spec', []),
           ('markov_boundary_shields', '@mb_shields', []),
@@ -242,6 +318,8 @@ TABLE = {
           ('skeleton_markov_boundary_minimal', '@skeleton_mb_minimal', []),
           ('colliders_have_two_arrowheads', '@colliders_spec', []),
           ('unshielded_colliders', '@unshielded_spec', []),
+          ('applies_to_every_validated_reachable_state', '@reachable_markov_boundary_shields', []),
+          ('colliders_on_every_reachable_state', '@reachable_colliders_spec', []),
           ]),
 }
 
@@ -276,7 +354,22 @@ def main(which):
                f'    elsewhere (statement printed by Coq itself from that lemma), with [Print Assumptions] beneath. *)',
                f'From CG Require Import {imports}.', '']
         for name, expr, unfold in entries:
-            ty = coq_type(imports, expr, unfold)
+            # the number of explicit codec arguments differs between lemmas: fall back to fewer
+            alts = [expr]
+            if expr.endswith(' Names.parse Names.fmt'):
+                alts += [expr[:-len(' Names.fmt')], expr.split(' ')[0]]
+            elif expr.endswith(' Names.parse'):
+                alts += [expr.split(' ')[0]]
+            ty = None
+            for alt in alts:
+                try:
+                    ty = coq_type(imports, alt, unfold)
+                    expr = alt
+                    break
+                except RuntimeError as e:
+                    err = e
+            if ty is None:
+                raise err
             ty = '\n'.join('  ' + l for l in ty.splitlines())
             out += [f'Theorem {pid}_{name} :\n{ty}.', f'Proof. exact ({expr}). Qed.', f'Print Assumptions {pid}_{name}.', '']
         p = TH / 'Properties' / f'{pid}.v'
